@@ -108,6 +108,8 @@ structure EInv (s : EState) : Prop where
   takenLe : s.taken ≤ s.produced
   prodLe : s.produced ≤ s.n
   gfresh : s.gen = .fresh → s.produced = 0
+  aclLive : s.rpc ≠ .done → s.acl = 0
+  aclDone : s.rpc = .done → s.acl = 1 ∨ (s.gen = .fresh ∧ s.acl = 0)
 
 theorem einv_init (n : Nat) (fails : Bool) : EInv (einit n fails) := by
   constructor <;> (try (simp (config := {decide := false}) only [einit]))
@@ -116,10 +118,10 @@ theorem einv_init (n : Nat) (fails : Bool) : EInv (einit n fails) := by
 set_option maxHeartbeats 4000000 in
 theorem einv_main {s s' : EState} (h : EInv s) (hs : emain s = some s') : EInv s' := by
   obtain ⟨n, fails, produced, gen, cleanups, disc, closed, wpc, wcancel, mpc, render, cur, q, stop,
-    rpc, rcancel, failed, taken, delivered, pings, finalSent, excPending, raised⟩ := s
+    rpc, rcancel, failed, taken, delivered, pings, finalSent, excPending, raised, acl⟩ := s
   obtain ⟨h1, h2, h3, h4, h5, h6, h7, h8, h9, h10, h11, h12, h13, h14, h15, h16, h17, h18, h19, h20,
-    h21, h22, h23, h24, h25⟩ := h
-  simp only at h1 h2 h3 h4 h5 h6 h7 h8 h9 h10 h11 h12 h13 h14 h15 h16 h17 h18 h19 h20 h21 h22 h23 h24 h25
+    h21, h22, h23, h24, h25, h26, h27⟩ := h
+  simp only at h1 h2 h3 h4 h5 h6 h7 h8 h9 h10 h11 h12 h13 h14 h15 h16 h17 h18 h19 h20 h21 h22 h23 h24 h25 h26 h27
   cases mpc <;> simp only [emain, rsFinally] at hs
   all_goals (repeat' split at hs)
   all_goals (first | cases hs | skip)
@@ -128,10 +130,10 @@ theorem einv_main {s s' : EState} (h : EInv s) (hs : emain s = some s') : EInv s
 set_option maxHeartbeats 4000000 in
 theorem einv_relay {s s' : EState} (h : EInv s) (hs : erelay s = some s') : EInv s' := by
   obtain ⟨n, fails, produced, gen, cleanups, disc, closed, wpc, wcancel, mpc, render, cur, q, stop,
-    rpc, rcancel, failed, taken, delivered, pings, finalSent, excPending, raised⟩ := s
+    rpc, rcancel, failed, taken, delivered, pings, finalSent, excPending, raised, acl⟩ := s
   obtain ⟨h1, h2, h3, h4, h5, h6, h7, h8, h9, h10, h11, h12, h13, h14, h15, h16, h17, h18, h19, h20,
-    h21, h22, h23, h24, h25⟩ := h
-  simp only at h1 h2 h3 h4 h5 h6 h7 h8 h9 h10 h11 h12 h13 h14 h15 h16 h17 h18 h19 h20 h21 h22 h23 h24 h25
+    h21, h22, h23, h24, h25, h26, h27⟩ := h
+  simp only at h1 h2 h3 h4 h5 h6 h7 h8 h9 h10 h11 h12 h13 h14 h15 h16 h17 h18 h19 h20 h21 h22 h23 h24 h25 h26 h27
   cases rpc <;> simp only [erelay, relayFinally] at hs
   all_goals (repeat' split at hs)
   all_goals (first | cases hs | skip)
@@ -141,27 +143,27 @@ theorem einv_step {t : ETid} {s s' : EState} (h : EInv s) (hs : estep t s = some
   cases t
   · exact einv_main h hs
   · obtain ⟨n, fails, produced, gen, cleanups, disc, closed, wpc, wcancel, mpc, render, cur, q,
-      stop, rpc, rcancel, failed, taken, delivered, pings, finalSent, excPending, raised⟩ := s
+      stop, rpc, rcancel, failed, taken, delivered, pings, finalSent, excPending, raised, acl⟩ := s
     obtain ⟨h1, h2, h3, h4, h5, h6, h7, h8, h9, h10, h11, h12, h13, h14, h15, h16, h17, h18, h19,
-      h20, h21, h22, h23, h24, h25⟩ := h
+    h20, h21, h22, h23, h24, h25, h26, h27⟩ := h
     simp only [estep, ewatcher] at hs
     repeat' split at hs
     all_goals (first | cases hs | skip)
     all_goals (constructor <;> grind)
   · exact einv_relay h hs
   · obtain ⟨n, fails, produced, gen, cleanups, disc, closed, wpc, wcancel, mpc, render, cur, q,
-      stop, rpc, rcancel, failed, taken, delivered, pings, finalSent, excPending, raised⟩ := s
+      stop, rpc, rcancel, failed, taken, delivered, pings, finalSent, excPending, raised, acl⟩ := s
     obtain ⟨h1, h2, h3, h4, h5, h6, h7, h8, h9, h10, h11, h12, h13, h14, h15, h16, h17, h18, h19,
-      h20, h21, h22, h23, h24, h25⟩ := h
+    h20, h21, h22, h23, h24, h25, h26, h27⟩ := h
     simp only [estep] at hs
     split at hs
     · cases hs
     · cases hs
       constructor <;> grind
   · obtain ⟨n, fails, produced, gen, cleanups, disc, closed, wpc, wcancel, mpc, render, cur, q,
-      stop, rpc, rcancel, failed, taken, delivered, pings, finalSent, excPending, raised⟩ := s
+      stop, rpc, rcancel, failed, taken, delivered, pings, finalSent, excPending, raised, acl⟩ := s
     obtain ⟨h1, h2, h3, h4, h5, h6, h7, h8, h9, h10, h11, h12, h13, h14, h15, h16, h17, h18, h19,
-      h20, h21, h22, h23, h24, h25⟩ := h
+    h20, h21, h22, h23, h24, h25, h26, h27⟩ := h
     simp only [estep] at hs
     split at hs
     · cases hs
@@ -176,7 +178,7 @@ theorem edel_step {t : ETid} {s s' : EState} (h : EInv s) (hd : EDel s)
   have hsend := h.sendc
   have hcur := h.curitem
   obtain ⟨n, fails, produced, gen, cleanups, disc, closed, wpc, wcancel, mpc, render, cur, q, stop,
-    rpc, rcancel, failed, taken, delivered, pings, finalSent, excPending, raised⟩ := s
+    rpc, rcancel, failed, taken, delivered, pings, finalSent, excPending, raised, acl⟩ := s
   simp only [EDel] at hd hsend hcur ⊢
   cases t
   · cases mpc <;> simp only [estep, emain, rsFinally] at hs
